@@ -357,7 +357,9 @@ def mon_c08(h, sc, obs):
                 if c > 1:
                     out.append(V('C08', 'duplicate-message-id', '', f"message id {i} generated {c} times"))
     per = collections.defaultdict(list)
-    seen_ids = set()
+    # process events (start / complete / error) handed to an acknowledging channel are stored as messages too and come
+    # back through the message path when a tick redelivers them
+    seen_ids = {e['id'] for e in h.emits if e['what'] != 'message'} if acked else set()
     for e in emits:
         if acked and e['id'] in seen_ids:
             continue              # a redelivery generated by a tick
